@@ -38,7 +38,7 @@ def text_view(res):
                 if v is not None and v["t"] not in ("default", "subkeys"):
                     for c in (0, 1, 2, 7):
                         from fractions import Fraction
-                        e = Env(count=lambda k, c=c: Fraction(c), cat=lambda r, x: "other")
+                        e = Env(count_default=c)
                         out.append([ns["key"], l["top"], list(path), c, pv_eval(e, v)])
     return {"texts": out, "warnings": res["ok"]["warnings"],
             "keys": [[ns["key"], sorted(map(list, (p for p, _ in iter_bki(ns["keys"]))))] for ns in res["ok"]["nss"]]}
